@@ -26,7 +26,7 @@ def to_trace(sc, evs):
         e.pop("rc", None)
         e.pop("exc", None)
         out.append(e)
-    return {"beh": MODEL_BEH.get(sc["beh"], "obeysTerm") if sc["beh"] != "unstartable" else "unstartable", "path": sc["path"], "ev": out}
+    return {"beh": MODEL_BEH.get(sc["beh"], "obeysTerm") if not sc["beh"].startswith("unstartable") else "unstartable", "path": sc["path"], "ev": out}
 
 
 def check_c16(ctx):
@@ -43,7 +43,7 @@ def check_c16(ctx):
         if set(r.invariant_violated) != expect:
             print("MODEL-STALE: %s violated %s, expected %s" % (cfg, r.invariant_violated, sorted(expect)))
     scen = [{"beh": b, "path": p, "moment": m} for b in ld.BEHAVIOURS for p in ld.EXIT_PATHS for m in ld.MOMENTS]
-    scen = [s for s in scen if not (s["beh"] == "unstartable" and (s["path"] != "normal" or s["moment"] != "beforeFirstMessage"))]
+    scen = [s for s in scen if not (s["beh"].startswith("unstartable") and (s["path"] != "normal" or s["moment"] != "beforeFirstMessage"))]
     scen += ld.EXTRA_SCENARIOS
     reps = 1 if quick else 3
     scen = scen * reps
@@ -61,7 +61,7 @@ def check_c16(ctx):
     ctx.cov["transitions"] += res["transitions"]
     ctx.cov["traces_validated_against_impl"] += len(traces)
     ctx.cov["evaluations"] += len(traces)
-    ctx.cov["distinct_nontrivial"] = len({json.dumps(s, sort_keys=True) for s in scen if s["beh"] != "unstartable"})
+    ctx.cov["distinct_nontrivial"] = len({json.dumps(s, sort_keys=True) for s in scen if not s["beh"].startswith("unstartable")})
     ctx.cov["samples"] = [{"scenario": scen[0], "trace": traces[0]["ev"]}, {"scenario": scen[50 % len(scen)], "trace": traces[50 % len(scen)]["ev"]}]
     for i, cls in sorted(res["failed"].items()):
         cls = [c for c in cls if c not in ("obeysTerm", "ignoresTerm", "exitsEarly", "unstartable")]
